@@ -312,6 +312,97 @@ impl Gen {
         (name, cols)
     }
 
+    /// Column lists over all builder options (C06): the model does not
+    /// predict acceptance; accepted => must survive exactly.
+    fn op_create_exotic(&mut self) -> Option<Op> {
+        self.table_seq += 1;
+        let name = if self.rng.chance(850) {
+            format!("X{}", self.table_seq)
+        } else {
+            let l = *self.rng.pick(&[1usize, 31, 32, 33, 40, 59, 60]);
+            let mut n = self.ident(l);
+            let suffix = self.table_seq.to_string();
+            n.truncate(l.saturating_sub(suffix.len()).max(1));
+            n.push_str(&suffix);
+            n
+        };
+        let ncols = match self.rng.below(20) {
+            0 => 32,
+            1 => 33,
+            2 => 31,
+            _ => 1 + self.rng.usize_below(6),
+        };
+        let mut cols = Vec::new();
+        for i in 0..ncols {
+            let cname = match self.rng.below(20) {
+                0 => {
+                    let l = *self.rng.pick(&[31usize, 32, 33, 63, 64, 65]);
+                    let mut n = self.ident(l);
+                    n.truncate(l.saturating_sub(2).max(1));
+                    n.push_str(&format!("{:02}", i % 100));
+                    n
+                }
+                _ => format!("C{}", i + 1),
+            };
+            let mut c = ColSpec::new(&cname, CType::I16);
+            c.key = i == 0 || self.rng.chance(150);
+            c.nullable = self.rng.chance(400);
+            c.localizable = self.rng.chance(300);
+            match self.rng.below(10) {
+                0..=1 => c.ty = CType::I16,
+                2..=3 => c.ty = CType::I32,
+                _ => {
+                    c.ty = CType::Str(*self.rng.pick(&[
+                        0u32, 1, 2, 72, 254, 255, 255, 256, 257, 300, 511, 512, 1000, 32767, 32768, 65535,
+                    ]))
+                }
+            }
+            if self.rng.chance(if c.is_str() { 500 } else { 60 }) {
+                c.category = Some(self.rng.pick(&CATEGORIES).to_string());
+            }
+            if self.rng.chance(250) {
+                let lists: [&[&str]; 9] = [
+                    &["a;b", "c"],
+                    &[""],
+                    &["a", ""],
+                    &["", "a"],
+                    &["x"],
+                    &["Y", "N"],
+                    &["one", "two", "three", "four"],
+                    &[";"],
+                    &["a", "a"],
+                ];
+                c.enums = self.rng.pick(&lists).iter().map(|s| s.to_string()).collect();
+                if self.rng.chance(100) {
+                    c.enums = vec!["v".repeat(*self.rng.pick(&[127usize, 128, 254, 255, 256])), "w".repeat(127)];
+                }
+            }
+            if self.rng.chance(300) {
+                let pts = [i32::MIN, -0x7fff_ffff, -32768, -32767, -1, 0, 1, 32, 32767, 32768, 0x7fff_ffff];
+                c.range = Some((*self.rng.pick(&pts), *self.rng.pick(&pts)));
+            }
+            if self.rng.chance(200) {
+                let t = match self.rng.below(6) {
+                    0 => "9x".to_string(),
+                    1 => String::new(),
+                    2 => "K".repeat(*self.rng.pick(&[254usize, 255, 256])),
+                    _ => "Other".to_string(),
+                };
+                c.fk = Some((t, *self.rng.pick(&[0i32, 1, 2, 32, 33, -1, 40000])));
+            }
+            cols.push(c);
+        }
+        if self.rng.chance(30) {
+            for c in cols.iter_mut() {
+                c.key = false;
+            }
+        }
+        if self.model.expect_create_table(&name, &cols) == Expect::Ok {
+            self.model.apply_create_table(&name, &cols);
+        }
+        Some(Op::CreateTable { name, cols })
+    }
+
     fn user_plain_tables(&self) -> Vec<String> {
         self.model.tables.iter().filter(|(_, t)| t.plain && !t.catalog).map(|(n, _)| n.clone()).collect()
     }
@@ -911,7 +1002,13 @@ impl Gen {
         let k = self.rng.weighted(&self.weights.clone());
         let odd = matches!(self.profile, Profile::Streams | Profile::Reject);
         let op = match k {
-            K_CREATE => self.op_create(),
+            K_CREATE => {
+                if self.profile == Profile::Schema && self.rng.chance(600) {
+                    self.op_create_exotic()
+                } else {
+                    self.op_create()
+                }
+            }
             K_DROP => self.op_drop(),
             K_INSERT => self.op_insert(),
             K_UPDATE => self.op_update(),
